@@ -69,6 +69,7 @@ class SFTPFile(BufferedFile):
         self._prefetch_data = {}
         self._prefetch_extents = {}
         self._prefetch_lock = threading.Lock()
+        self._prefetch_threads = 0
         self._saved_exception = None
         self._reqs = deque()
 
@@ -103,7 +104,6 @@ class SFTPFile(BufferedFile):
                 self._check_exception()
             except Exception as e:
                 error = e
-            self._reqs.clear()
         try:
             if async_:
                 # GC'd file handle could be called from an arbitrary thread
@@ -226,7 +226,6 @@ class SFTPFile(BufferedFile):
         if len(self._reqs) > 100 and self.sftp.sock.recv_ready():
             # don't let the answers pile up
             self.sftp._finish_responses(self)
-            self._reqs.clear()
         return chunk
 
     def settimeout(self, timeout):
@@ -562,6 +561,8 @@ class SFTPFile(BufferedFile):
     def _start_prefetch(self, chunks, max_concurrent_requests=None):
         self._prefetching = True
         self._prefetch_done = False
+        with self._prefetch_lock:
+            self._prefetch_threads += 1
 
         t = threading.Thread(
             target=self._prefetch_thread,
@@ -588,27 +589,45 @@ class SFTPFile(BufferedFile):
             )
             with self._prefetch_lock:
                 self._prefetch_extents[num] = (offset, length)
+        with self._prefetch_lock:
+            self._prefetch_threads -= 1
 
     def _async_response(self, t, msg, num):
         if t == CMD_STATUS:
+            is_write = num in self._reqs
+            if is_write:
+                self._reqs.remove(num)
             # save exception and re-raise it on next file operation
             try:
                 self.sftp._convert_status(msg)
+            except EOFError as e:
+                # a read-ahead at or past the end of the file found nothing;
+                # that says nothing about the read the caller is doing now.
+                if is_write:
+                    self._saved_exception = e
             except Exception as e:
                 self._saved_exception = e
-            return
-        if t != CMD_DATA:
+            if is_write:
+                return
+            data = None
+        elif t != CMD_DATA:
             raise SFTPError("Expected data")
-        data = msg.get_string()
+        else:
+            data = msg.get_string()
         while True:
             with self._prefetch_lock:
                 # spin if in race with _prefetch_thread
                 if num in self._prefetch_extents:
                     offset, length = self._prefetch_extents[num]
-                    self._prefetch_data[offset] = data
+                    if data is not None:
+                        self._prefetch_data[offset] = data
+                    # answered, one way or the other
                     del self._prefetch_extents[num]
                     if len(self._prefetch_extents) == 0:
                         self._prefetch_done = True
+                    break
+                if data is None and self._prefetch_threads == 0:
+                    # a status for a request nobody is going to register
                     break
 
     def _check_exception(self):
